@@ -877,6 +877,15 @@ impl Relation {
     }
 
     /// Increments the row counter. Only valid for tables.
+    /// Makes sure that `row_id` is never handed out again (recovery re-inserts rows under their logged ids).
+    pub(crate) fn reserve_row_id(&mut self, row_id: RowId) {
+        if let Some(ref mut next) = self.next_row_id {
+            if *next <= row_id {
+                *next = row_id + 1;
+            }
+        }
+    }
+
     pub(crate) fn increment_row_id(&mut self) {
         if let Some(ref mut row_id) = self.next_row_id {
             *row_id += 1;
